@@ -221,6 +221,24 @@ def default_inline_policy(fx):
     return pol
 
 
+def vis_kind(fn):
+    v = fn.get("vis", "")
+    if v == "Public":
+        return "pub"
+    if v.startswith("Restricted(DefId(0:0 "):
+        return "crate"
+    return "private"
+
+
+def private_only_policy(fx):
+    """Inline only module-private plain functions / inherent methods (crate-visible helpers stay calls)."""
+    def pol(fn):
+        if fn["kind"] not in ("Fn", "AssocFn") or fn.get("impl_trait"):
+            return False
+        return vis_kind(fn) == "private"
+    return pol
+
+
 def inline_region(fx, root_key, depth=4, policy=None):
     """Build a synthetic function (same JSON shape) in which calls to local functions selected by
     `policy` are replaced by the callee's CFG.  Recursion is cut (the call stays a call)."""
@@ -245,6 +263,7 @@ def inline_region(fx, root_key, depth=4, policy=None):
             nb["origin_bb"] = bi
             nb["inst"] = inst
             nb["ret_local"] = loff
+            new.setdefault("ret_locals", set()).add(loff)
             new["blocks"][boff + bi] = nb
         # post-process terminators of this instance
         for bi in range(n):
@@ -292,9 +311,14 @@ def inline_region(fx, root_key, depth=4, policy=None):
         return boff
 
     emit(root, 0, {root_key}, depth)
+    new["ret_locals"] = sorted(new.get("ret_locals", []))
     return new
 
 
 def region_body(fx, root_path, depth=4, policy=None):
     f = fx.fn(root_path)
     return Body(inline_region(fx, f["key"], depth, policy))
+
+
+def region_of_key(fx, key, depth=4, policy=None):
+    return Body(inline_region(fx, key, depth, policy))
